@@ -233,7 +233,7 @@ CHECKS = {
        "C12_time_bounds (non-blocking: 0; timed: timeout + one poll interval, any state, with faults); about the "
        "small-step model of C02 (every interleaving of threads / objects / processes, with crashes): "
        "C12_inside_is_locked, C12_thread_lock_not_left_behind, C12_unowned_is_pristine, "
-       "C12_reacquirable_under_contention, C12_calls_never_stuck. Tied to "
+       "C12_reacquirable_under_contention, C12_nobody_enters_during_a_call, C12_calls_never_stuck. Tied to "
        "aiuti.filelock by a bounded-exhaustive sequential differential on a real lock file (all sequences to length "
        "3/4 over 24 operations x 3 reentrancy configs, each with a full release and re-acquire probes by everybody; "
        "whole with-blocks - acquire_ctx non-blocking / timed / blocking and the with-statement - as extra operations, "
